@@ -174,6 +174,7 @@ contract(
         " + (ofm_block.width - 1) * kernel.stride.x + (kernel.width - 1) * kernel.dilation.x + 1)",
         "implies(result is not None, result[0].z == ifm.z + (block_offset % nblocks(ifm.z2 - ifm.z + 1, ifm_block_depth)) * ifm_block_depth and result[1].z == result[0].z + ifm_block_depth)",
         "(result is None) == (ru.get_offset_block_coords(ofm, ofm_block, block_offset // nblocks(ifm.z2 - ifm.z + 1, ifm_block_depth)) is None)",
+        "implies(result is not None, result[2] == 1)",      # one job per IFM block
     ],
 )
 
@@ -258,4 +259,64 @@ contract(
         ]),
     },
     modifies_lists=["outstanding_dma_ops", "outstanding_npu_ops"],
+)
+
+
+# ===== BLOCKDEP search (C04): the sliding-window loops of calc_blockdep (suffix slice) ===================================================
+from ethosu.vela.architecture_features import ArchitectureFeatures  # noqa: E402
+
+from pyvc.slicer import drop_any, drop_before, drop_matching  # noqa: E402
+
+# The block-job geometry (which IFM volume job f reads, which OFM block is produced b-th from the end, whether two volumes share
+# bytes) is under contract above (get_first_job_input_volume, get_prev_job_output_volume, coords_intersect / range_lists_overlap).
+# Here they are abstract: in_none(f) / out_none(b) = 'there is no such job', isect(f, b) = 'the two volumes overlap'.
+in_none = Uninterp("blockdep.in_none", PyBool)
+out_none = Uninterp("blockdep.out_none", PyBool)
+isect = Uninterp("blockdep.isect", PyBool)
+
+
+def _in_volume(eng, args, kwargs):
+    f = args[-1]
+    if eng.branch(eng.truth(in_none.apply(eng, [f]))):
+        return NONE
+    return VTuple([f, f, VInt(1)])        # (start, end, jobs): the volume is identified by its job number
+
+
+def _out_volume(eng, args, kwargs):
+    b = args[-1]
+    if eng.branch(eng.truth(out_none.apply(eng, [b]))):
+        return NONE
+    return VTuple([b, b, VInt(1)])
+
+
+def _intersects(eng, args, kwargs):
+    return isect.apply(eng, [args[1], args[4]])
+
+
+_CB = ru.calc_blockdep
+
+contract(
+    "ethosu.vela.register_command_stream_util:calc_blockdep", props=["C04"],
+    # suffix slice from `blockdep = MAX_BLOCKDEP`: the prefix (forced-zero cases, whole-tensor overlap tests, record unpacking) only
+    # establishes the arguments handed to the three geometry functions, which are abstract here
+    types=dict(arch=TOpaque("arch"), prev_op=TOpaque("op"), npu_op=TOpaque("op"),
+               cur_ifm_rect=TOpaque("rect"), cur_ofm_rect=TOpaque("rect"), cur_ifm_block_depth=PyInt, cur_ofm_block=TOpaque("block"),
+               padding=TOpaque("padding"), overlapping_fm=TOpaque("fm"), kernel=TOpaque("kernel"), prev_ofm_block=TOpaque("block"),
+               prev_ofm_rect=TOpaque("rect"), gf=TInt(lo=0, hi=2), gb=TInt(lo=0, hi=2)),
+    slice_drop=drop_any(drop_before(_CB, "blockdep = ArchitectureFeatures.MAX_BLOCKDEP"),
+                        drop_matching(_CB, "kernel = to_kernel(", "prev_ofm_block = Block(", "prev_ofm_rect = shape3d_to_rect(")),
+    externals={
+        "ethosu.vela.register_command_stream_util:get_first_job_input_volume": _in_volume,
+        "ethosu.vela.register_command_stream_util:get_prev_job_output_volume": _out_volume,
+        "ethosu.vela.register_command_stream_util:intersects": _intersects,
+    },
+    ensures=[
+        "0 <= result <= ArchitectureFeatures.MAX_BLOCKDEP",
+        # CORE: if block job gf of this operation reads bytes that the gb-th block from the end of the previous operation writes,
+        # then BLOCKDEP <= gf + gb, i.e. the hardware never has that pair of jobs in flight together
+        "implies(all(not in_none(k) for k in range(gf + 1)) and all(not out_none(k) for k in range(gb + 1)) and isect(gf, gb), result <= gf + gb)",
+    ],
+    replay=False,
+    assumptions=["block-job volumes and their overlap test are abstract in this contract (their own contracts are separate obligations)",
+                 "hardware model: with BLOCKDEP = d, job f of this operation and the b-th block from the end of the previous one are in flight together only if f + b < d"],
 )
